@@ -186,7 +186,7 @@ def corpus_cases():
 def gen_cases(ctx):
     rng = ctx.rng
     cases = corpus_cases()
-    n = 260 if ctx.quick() else 6000
+    n = 200 if ctx.quick() else 6000
     for i in range(n):
         r = rng.random()
         align = rng.choice([None, None, 1, 2, 8, 32, 64, 3, 5, 16, 100, 4096 if rng.random() < 0.2 else 7])
@@ -239,7 +239,7 @@ def gen_cases(ctx):
         cases.append({"op": "conc", "writers": ws, "mode": mode, "procs": procs, "sched": sched, "klass": "concurrent-" + mode})
     # Tensor.block (fmt.Sscanf "blk.%d."): exhaustive short names + boundary cases
     a1 = bytes([0x30, 0x31, 0x39, 0x2b, 0x2d, 0x5f, 0x2e, 0x20, 0x0a, 0x0d, 0x78, 0xc2, 0xa0, 0x09])
-    cases.append({"op": "block_all", "prefix": b"blk.".hex(), "alpha": (a1[:11] if ctx.quick() else a1).hex(), "maxlen": 4, "klass": "block-exhaustive"})
+    cases.append({"op": "block_all", "prefix": b"blk.".hex(), "alpha": (a1[:10] if ctx.quick() else a1).hex(), "maxlen": 4, "klass": "block-exhaustive"})
     cases.append({"op": "block_all", "prefix": "", "alpha": b"blk.0 ".hex(), "maxlen": 5, "klass": "block-exhaustive"})
     cases.append({"op": "block_all", "prefix": b"blk.".hex(), "alpha": bytes([0xe2, 0x80, 0x81, 0x83, 0x9f, 0xa8, 0xe3, 0xe1, 0x9a, 0x35, 0x2e]).hex(), "maxlen": 4, "klass": "block-exhaustive"})
     names = list(NAMES) + [b"blk.9223372036854775807.", b"blk.9223372036854775808.", b"blk.-9223372036854775808.", b"blk.-9223372036854775809.",
